@@ -436,7 +436,17 @@ where
                             };
                             // Again, we're replacing the innards of the original stream with
                             // the contents of the new one.
+                            // Modifiers set on the stream's handle and still waiting for its
+                            // next operation stay with the stream.
+                            let parked = (
+                                stream.ldap.controls.take(),
+                                stream.ldap.timeout.take(),
+                                stream.ldap.search_opts.take(),
+                            );
                             stream.ldap = new_stream.ldap;
+                            stream.ldap.controls = parked.0;
+                            stream.ldap.timeout = parked.1;
+                            stream.ldap.search_opts = parked.2;
                             stream.rx = new_stream.rx;
                             stream.msgid = new_stream.msgid;
                             // The result of the page just read is not the result of the
